@@ -15,6 +15,7 @@ Three kinds of cases
 
 Oracle (never the implementation): the file's own lines read back in binary; see RULE / the clause list in run_case.
 """
+import hashlib
 import json
 import math
 import os
@@ -49,7 +50,7 @@ RULE = (
     "ingest percentage under order A (prefix of the documented length). "
     "arith cases: 1-3 files with up to 10^12 documents, up to 1024 clients, drawn contiguous split, bulk size up to 10^6. "
     "arith-grid (enumerated): all contiguous splits of N <= 9 clients x 0..60 documents x with/without meta-data. "
-    "Non-trivial (files) = (>= 2 groups and >= 2 targeted files) or a group starts beyond line 50 000 of a file (offset entry used) or "
+    "Non-trivial (files) = (>= 2 groups and >= 2 targeted files) or a group starts at or beyond line 50 000 of a file (offset entry used) or "
     "multi-byte content or ingest % < 100 or conflicts on; (arith) = >= 2 groups and at least one file with >= 10^6 documents or more "
     "than 17 clients. Distinct = distinct canonical JSON."
 )
@@ -123,7 +124,7 @@ def _files_case(draw, large):
     if large:
         corp = draw(gc.large_corpora(plain_only=conflicts is not None))
         pool = draw(gc.pools(max_len=4))
-        clients = draw(st.integers(1, 8) | st.integers(2, 8))
+        clients = draw(st.sampled_from([1, 2, 2, 3, 4, 5, 6, 7, 8]))
         bulk = draw(st.sampled_from([500, 977, 1000, 2500, 3333, 5000]))
         batch_k = draw(st.sampled_from([1, 1, 2, 5]))
     else:
@@ -132,7 +133,12 @@ def _files_case(draw, large):
         clients = draw(st.integers(1, 17))
         bulk = draw(BULK_SIZES)
         batch_k = draw(st.sampled_from([1, 1, 1, 2, 3, 10]))
-    groups = _group_sizes(draw, clients)
+    if large and clients >= 2:
+        # always a group that starts in the second half of the clients, i.e. (for files > 100 000 lines) behind an offset-table entry
+        cuts = draw(st.sets(st.integers(1, clients - 1), max_size=3)) | {draw(st.integers((clients + 1) // 2, clients - 1))}
+        groups = [b - a for a, b in zip([0] + sorted(cuts), sorted(cuts) + [clients])]
+    else:
+        groups = _group_sizes(draw, clients)
     case = {
         "kind": "files",
         "seed": draw(st.integers(0, 2**16)),
@@ -188,13 +194,20 @@ def _arith_case(draw):
     }
 
 
+def _kind_of(ticket, tier):
+    # the kind of a case is a hash of a drawn integer, so that the share of the (expensive) large-file cases does not depend on how
+    # Hypothesis happens to weight the branches of a one_of/sampled_from under a given seed
+    h = int.from_bytes(hashlib.sha1(b"c03-%d" % ticket).digest()[:4], "big") % 1000
+    large = 20 if tier == "quick" else 25  # per mille; a large-file case costs 0.3-2 s
+    if h < large:
+        return "large"
+    return "arith" if h < large + 200 else "small"
+
+
 def strategy(tier, known):
-    if tier == "quick":
-        # ~2 % large-file cases (each costs 0.3-0.8 s), ~22 % arithmetic, the rest small files
-        kinds = ["small"] * 38 + ["large"] * 1 + ["arith"] * 11
-    else:
-        kinds = ["small"] * 38 + ["large"] * 1 + ["arith"] * 8
-    return st.sampled_from(kinds).flatmap(lambda k: _arith_case() if k == "arith" else _files_case(large=(k == "large")))
+    return st.integers(0, 2**40).flatmap(
+        lambda ticket: _arith_case() if _kind_of(ticket, tier) == "arith" else _files_case(large=(_kind_of(ticket, tier) == "large"))
+    )
 
 
 def _compositions(n):
@@ -415,9 +428,26 @@ def _body_lines(body):
 
 
 _ACTION_CACHE = {}
+# fast path for the common shape of an action line; anything else goes through json.loads (same result for this shape)
+_ACTION_FAST = re.compile(
+    rb'^\{"(index|create|update)": ?\{"_index": ?"([^"\\]*)"(?:, ?"_type": ?"([^"\\]*)")?(?:, ?"_id": ?"([^"\\]*)")?\}\}\n$'
+)
 
 
 def _parse_action(line):
+    """(action, meta dict) of a bulk action line or None"""
+    m = _ACTION_FAST.match(line)
+    if m:
+        try:
+            action, index, type_, doc_id = (g.decode("utf-8") if g is not None else None for g in m.groups())
+        except UnicodeDecodeError:
+            return None
+        meta = {"_index": index}
+        if type_ is not None:
+            meta["_type"] = type_
+        if doc_id is not None:
+            meta["_id"] = doc_id
+        return action, meta
     try:
         return _ACTION_CACHE[line]
     except KeyError:
@@ -427,7 +457,7 @@ def _parse_action(line):
         try:
             obj = json.loads(line)
             if isinstance(obj, dict) and len(obj) == 1:
-                (action, meta), = obj.items()
+                ((action, meta),) = obj.items()
                 if action in ("index", "create", "update") and isinstance(meta, dict):
                     parsed = (action, meta)
         except ValueError:
@@ -692,7 +722,7 @@ def _run_files(case, obs):
             per_doc = 2 if f.spec["meta"] else 1
             pos = 0
             for s_ in seqs:
-                if s_ and pos * per_doc > 50_000:
+                if s_ and pos * per_doc >= 50_000:
                     offset_used = True
                 pos += len(s_)
 
